@@ -60,6 +60,20 @@ def step (ws : List String) : String :=
   | "target" :: mbh :: mtot :: f :: rest =>
     let (r, d) := targetEjectRev (pairs (rest.map parseHex)) (parseHex mbh) (parseHex mtot) (parseHex f)
     s!"ok {d} {pairsOut r}"
+  | "roweject" :: ret :: nmin :: rest =>
+    -- rest = <nbins> M N ... then per-bin retention list (length-prefixed; empty = no kicks)
+    let (flat, r1) := takeList rest
+    let (rets, _) := takeList r1
+    let bins := pairs flat
+    let table := (bins.zip rets).map fun ((m, n), r) => (m / n, r)
+    let fret : Float → Float := fun x => match table.find? (fun p => p.1 == x) with
+      | some p => p.2
+      | none => 1.0
+    let kicks := if rets.isEmpty then none else some (unboundKicks fret)
+    match rowEject kicks (parseHex ret) (parseHex nmin) bins with
+    | .ok (r, d) => s!"ok {d} {pairsOut r}"
+    | .error .kicksOverBudget => "err kicksOverBudget"
+    | .error _ => "err overEject"
   | ["mrem", d, mb, mt] => toHex (Mrem (parseHex d) (parseHex mb) (parseHex mt))
   | ["sigmoid", slope, scale, m] => toHex (sigmoidRet (parseHex slope) (parseHex scale) (parseHex m))
   | ["erf", x] => toHex (Scalar.erf (parseHex x))
